@@ -7,7 +7,7 @@ id=$$
 wt=/tmp/wt-eval-$id; vc=/tmp/vcopy-eval-$id
 git -C /repo worktree add -f "$wt" HEAD >/dev/null 2>&1 || { echo "worktree failed"; exit 2; }
 if ! git -C "$wt" apply "$patch"; then echo "PATCH-DOES-NOT-APPLY"; git -C /repo worktree remove --force "$wt"; exit 2; fi
-rsync -a --exclude .work --exclude replays /verif/ "$vc"/
+rsync -a --exclude .work --exclude replays --exclude .git /verif/ "$vc"/ 2>/dev/null
 cd "$vc" && VERIF_REPO="$wt" timeout 3000 ./check "$prop" --tier "$tier" > "$vc/out.txt" 2>&1
 rc=$?
 echo "== $prop $(basename $(dirname $patch))/$(basename $patch) rc=$rc"
